@@ -5,6 +5,7 @@ import HpxVerif.Props.C16
 import HpxVerif.Lemmas.CellExtent4
 import HpxVerif.Lemmas.EConeEq3
 import HpxVerif.Lemmas.Tightness4
+import HpxVerif.Lemmas.ConeBmoc3
 
 set_option autoImplicit false   -- an unknown identifier in a statement is an error, never a new variable
 
@@ -187,5 +188,45 @@ theorem cone_coverage_approx_tight (cfg : Cfg) (depth : ℕ) (lon lat r : ℝ) (
 
 
 end Tightness
+
+
+/-! ## full flags on the RETURNED BMOC, parents created by packing included (equatorial cones, both profiles, and the `custom` variant) -/
+
+section OnTheReturnedBmoc
+open Hpx Hpx.Hash Hpx.C2V Hpx.C2VReal Hpx.Proj Hpx.Cover Hpx.CellReal Hpx.EnvelopeReal Hpx.TopoLift Hpx.CellExtent Hpx.Bmoc Hpx.Tightness Hpx.EConeEq Hpx.ConeBmoc Real
+
+/-- **T2, `cone_coverage_approx_full_inside_equatorial`** (ℝ, both profiles, every `depth ≤ 29`, `|lat| + r < tl`): every
+    entry of the returned BMOC that is flagged FULL — a cell flagged by the descent or a parent created by the compaction
+    of four full cells, at any number of levels — has every position (`InCellEq`) STRICTLY within `r` of the cone centre.
+    (`cone_coverage_approx_good`: moreover such an entry is never centred on the transition latitude.) -/
+theorem cone_coverage_approx_full_inside_equatorial (cfg : Cfg) (depth : ℕ) (lon lat r : ℝ)
+    (hA : |lat| + r < tl) (b : BMOC) (h : coneCoverageApprox (α := ℝ) cfg depth lon lat r = some b)
+    (e : ℕ) (he : e ∈ b.entries) (hf : (decode e depth).full = true) (q : ℝ × ℝ)
+    (hq : InCellEq (decode e depth).depth (decode e depth).hash q) : adist (lon, lat) q < r :=
+  Hpx.ConeBmoc.cone_coverage_approx_full_inside_equatorial cfg depth lon lat r hA b h e he hf q hq
+
+/-- **T3, full flags of `cone_coverage_approx_custom`, `delta_depth ≠ 0`**: every entry of the returned BMOC flagged FULL
+    has every position (`InCellEq`) strictly within `r` of the cone centre -/
+theorem cone_coverage_approx_custom_full_inside_equatorial (cfg : Cfg) (depth deltaDepth : ℕ) (hdd : deltaDepth ≠ 0)
+    (lon lat r : ℝ) (hA : |lat| + r < tl) (b : BMOC)
+    (h : coneCoverageApproxCustom (α := ℝ) cfg depth deltaDepth lon lat r = some b)
+    (e : ℕ) (he : e ∈ b.entries) (hf : (decode e depth).full = true) (q : ℝ × ℝ)
+    (hq : InCellEq (decode e depth).depth (decode e depth).hash q) : adist (lon, lat) q < r :=
+  Hpx.ConeBmoc.cone_coverage_approx_custom_full_inside_equatorial cfg depth deltaDepth hdd lon lat r hA b h e he hf q hq
+
+/-- **T3, "full only if all the deepest cells under it were full"**: a FULL entry of the BMOC returned by
+    `cone_coverage_approx_custom` (`delta_depth ≠ 0`) covers only cells of depth `deep = depth + delta_depth` that are covered
+    by a FULL cell of the list of the descent at `deep` -/
+theorem cone_coverage_approx_custom_full_only_if (cfg : Cfg) (depth deltaDepth : ℕ) (hdd : deltaDepth ≠ 0)
+    (lon lat r : ℝ) (b : BMOC)
+    (h : coneCoverageApproxCustom (α := ℝ) cfg depth deltaDepth lon lat r = some b)
+    (e : ℕ) (he : e ∈ b.entries) (hf : (decode e depth).full = true) (x : ℕ)
+    (hx : x / 4 ^ (depth + deltaDepth - (decode e depth).depth) = (decode e depth).hash) :
+    ∃ cells, coneInternal (α := ℝ) cfg (depth + deltaDepth) lon lat r = some cells ∧
+      ∃ c ∈ cells, c.full = true ∧ x / 4 ^ (depth + deltaDepth - c.depth) = c.hash :=
+  Hpx.ConeBmoc.cone_coverage_approx_custom_full_only_if cfg depth deltaDepth hdd lon lat r b h e he hf x hx
+
+
+end OnTheReturnedBmoc
 
 end Hpx.C06
